@@ -89,6 +89,7 @@ type Cfg struct {
 	BCryptCost       int      // Modules.BCryptCost (0: 4, the cost of every seeded hash); 5 = the cost was raised after the accounts were created
 	AppendedRules    bool     // the application appended rules of its own to the shipped body reader's login / recover_start / register rulesets
 	SeparateEmail    bool     // a username site: the user type's e-mail address is not derived from the primary identifier (new accounts have none until the profile is filled in)
+	AllowWSPasswords bool     // the application's password rule allows whitespace (pass-phrases)
 	PersistArbitrary bool     // the user type stores every key PutArbitrary hands it (only sensible with an explicit RegWhitelist)
 }
 
@@ -368,6 +369,19 @@ func New(cfg Cfg, salt string) (w *World, err error) {
 	ab.Config.Core.Responder = defaults.NewResponder(ab.Config.Core.ViewRenderer)
 	ab.Config.Core.Redirector = defaults.NewRedirector(ab.Config.Core.ViewRenderer, authboss.FormValueRedirect)
 	br := defaults.NewHTTPBodyReader(cfg.JSON, false)
+	if cfg.AllowWSPasswords {
+		// an application whose password policy allows blanks (pass-phrases): the shipped password rule with
+		// AllowWhitespace switched on, for registration and for recovery
+		for _, page := range []string{"register", "recover_end"} {
+			rs := append([]defaults.Rules(nil), br.Rulesets[page]...)
+			for i := range rs {
+				if rs[i].FieldName == "password" {
+					rs[i].AllowWhitespace = true
+				}
+			}
+			br.Rulesets[page] = rs
+		}
+	}
 	if cfg.AppendedRules {
 		// an application that extends the shipped rulesets the way the README shows — by appending: a
 		// (generous) length limit on the identifier of the login and recovery forms, a name rule for registration
@@ -1184,6 +1198,14 @@ func (saltedSHA) CompareHashAndPassword(hash, pw string) error {
 		return errSSHAMismatch
 	}
 	return nil
+}
+
+// VerifyPw reports whether hash verifies pw under this world's configured hasher (no fault plan involved).
+func (w *World) VerifyPw(hash, pw string) bool {
+	if w.Cfg.CustomHasher {
+		return saltedSHA{}.CompareHashAndPassword(hash, pw) == nil
+	}
+	return authboss.NewBCryptHasher(4).CompareHashAndPassword(hash, pw) == nil
 }
 
 // HashPw hashes a password the way this world's configured hasher does (seeding only).
